@@ -310,6 +310,45 @@ def body_tables(case):
             with cut("config_from_fits(results file)"):
                 rec = config_from_fits(path)
         check_reconstruction(conf, rec, "results file of a run")
+        # a second generation: the loaded table wrapped again (results_table.init(table), as the tools that reload a file
+        # do) and written out is the same file - every column, every header value incl. the recorded start time
+        path2 = os.path.join(tmp, "second" + os.path.splitext(path)[1])
+        with quiet():
+            from nuspacesim import results_table as _rt
+
+            # (the harness owns the clock: the re-save happens "years later")
+            import datetime as _dt
+
+            class _Later(_dt.datetime):
+                @classmethod
+                def now(cls, tz=None):
+                    return _dt.datetime(2031, 5, 6, 7, 8, 9)
+
+            class _FakeModule:
+                datetime = _Later
+                timedelta = _dt.timedelta
+                date = _dt.date
+
+            real_dt = _rt.datetime
+            _rt.datetime = _FakeModule
+            try:
+                with cut("results_table.init(loaded table)"):
+                    t2 = _rt.init(r)
+            finally:
+                _rt.datetime = real_dt
+            with cut("results_table.init(loaded table) -> write -> read"):
+                t2.write(path2, format="fits", overwrite=True)
+                r2 = Table.read(path2, format="fits")
+        require(list(r2.colnames) == list(r.colnames) and len(r2) == len(r), "the second generation of the results file has other columns or rows")
+        for cname in r.colnames:
+            require(_col_bytes(r2[cname]) == _col_bytes(r[cname]), f"column {cname} changes when the loaded results are written out again")
+        k1 = {str(k).upper(): v for k, v in r.meta.items()}
+        k2 = {str(k).upper(): v for k, v in r2.meta.items()}
+        require(sorted(k1) == sorted(k2), f"header keywords change when the loaded results are written out again: {sorted(set(k1) ^ set(k2))[:6]}")
+        for k_ in k1:
+            a_, b_ = k1[k_], k2[k_]
+            same = (a_ == b_) or (isinstance(a_, float) and isinstance(b_, float) and math.isnan(a_) and math.isnan(b_))
+            require(bool(same), f"header value {k_} changes from {a_!r} to {b_!r} when the loaded results are written out again")
         # ... so that the file can be reloaded for plotting: the show-plot command (in process) loads it and hands it
         # to every module's plotter, whichever channels ran and however many rows there are
         import matplotlib
